@@ -302,6 +302,9 @@ func Plan(tier string) *harness.Plan {
 	sigma := []string{"a", "b", "q", "A", "\n"}
 	short := space.WordList(sigma, hayL)
 	emb := space.Embed(space.WordList(sigma, embW), []byte{'z', 'a'}, space.EmbedI, embJ)
+	// multi-literal sets: every word of up to 4 symbols over the literal alphabet behind a neutral pad that pushes
+	// it past the 16/32-byte vector paths and flush against the end (false candidates next to a final literal)
+	embMulti := space.Embed(space.WordList([]string{"a", "b", "q"}, 4), []byte{'z'}, []int{13, 16, 29, 33}, []int{0, 15})
 	var win *guardmem.Window
 	digitUnit := len(sets)
 	run := func(w *harness.W, u int) {
@@ -367,6 +370,11 @@ func Plan(tier string) *harness.Plan {
 		for _, h := range emb {
 			do(h, false)
 		}
+		if k := sets[u].kind; k == "pair" || k == "pair-ext" || k == "pair-prefix" || k == "triple" {
+			for _, h := range embMulti {
+				do(h, false)
+			}
+		}
 		for _, h := range own {
 			do(h, false)
 		}
@@ -405,7 +413,7 @@ func Plan(tier string) *harness.Plan {
 		},
 		Rule:  "Literal sets: every single literal of length 1-4 over {a,b,q,A} (complete and incomplete), every pair of length-3 (thorough: 3-4) literals over {a,b,q}, prefix-overlapping pairs, every triple of length-3 literals over {a,q}, short-literal sets, generated 9/17/32/33/64/65/70-literal sets and every 9-literal set in which literal 9 extends literal j (both priority orders). Each set is built through Builder.Build (prefixes and suffixes), NewTeddy with fingerprint length 1-4, NewFatTeddy, WrapIncomplete, WrapLineAnchor, NewTracker, WrapWithTracking; plus the digit prefilter. Haystacks: every sequence of at most L symbols over {a,b,q,A,newline} at every start offset, embeddings pad^i·w·pad^j across the 16/32/64-byte strides, and token sequences of the set's own literals, placed flush against an inaccessible page. Oracle: smallest position >= start where a literal occurs (line-anchor wrapper: at a line start); for complete prefilters FindMatch / Find+LiteralLen must equal package regexp's FindIndex of the literal alternation. The Tracker is explored as a history (BFS over Find/ConfirmMatch/Reset). Repeated under three CPU-feature masks. states = (set, haystack) pairs; transitions = Find/FindMatch calls; non-trivial = a literal occurs at or after the offset.",
 		Level: "model_checking", Budget: budget(tier),
-		Bounds: map[string]any{"literal_sets": len(sets), "haystack_symbols": hayL, "short_haystacks": len(short), "embedded_haystacks": len(emb), "embedding_word_len": embW},
+		Bounds: map[string]any{"literal_sets": len(sets), "haystack_symbols": hayL, "short_haystacks": len(short), "embedded_haystacks": len(emb), "embedded_haystacks_multi_literal_sets": len(embMulti), "embedding_word_len": embW},
 		Passes: []harness.Pass{{Name: "native"}, {Name: "noavx2", Env: []string{"GODEBUG=cpu.avx2=off"}}, {Name: "noavx2-nossse3", Env: []string{"GODEBUG=cpu.avx2=off,cpu.ssse3=off"}}},
 		Assume: []string{"an inactive Tracker returning -1 is a documented decline (callers must test IsActive)", "literal alphabets and lengths as stated; literals longer than 4 bytes only in the generated sets", "x/sys/cpu honours GODEBUG=cpu.<feature>=off"},
 	}
